@@ -70,6 +70,7 @@ type PolCfg struct {
 	Secrets     map[string]secretEntry `json:"secrets"`
 	YieldProb   uint32                 `json:"yield_prob"`
 	ShortReads  int                    `json:"short_reads"`
+	NoHTTPS     bool                   `json:"no_https,omitempty"` // certificate configured but no HTTPS listener (https-address empty)
 }
 
 // effective TLS mode (a client-certificate policy implies "required")
@@ -146,6 +147,7 @@ func genPolCfg(rc *RunCtx) PolCfg {
 	}
 	c.AuthServers = r.Pick(0, 1, 1, 2)
 	c.AuthPost = r.Chance(1, 3)
+	c.NoHTTPS = c.Cert && r.Chance(1, 4)
 	for _, s := range polSecrets {
 		if s == "nobody" {
 			continue
@@ -269,6 +271,9 @@ func policyWorld(rc *RunCtx) {
 			o.TLSRootCAFile = certDir + "ca.pem"
 		}
 	} else {
+		o.HTTPSAddress = ""
+	}
+	if c.NoHTTPS {
 		o.HTTPSAddress = ""
 	}
 	for i := 0; i < c.AuthServers; i++ {
@@ -942,7 +947,7 @@ func (w *polWorld) opHTTP(op Op, secure bool) {
 		w.rc.Probe("http_ok")
 		return
 	}
-	if !w.cfg.Cert {
+	if !w.cfg.Cert || w.cfg.NoHTTPS {
 		return // no HTTPS listener
 	}
 	var cert *tls.Certificate
